@@ -11,9 +11,8 @@ from vncdotool import loggingproxy as lp
 TRUSTED_BASE = ["Model/Recorder.v hand-written transliteration of loggingproxy.RFBServer and the recorder formatting; TYPE_LEN, "
                 "REVERSE_MAP, message numbers and struct formats regenerated", "loggingproxy.time is replaced by a virtual clock in "
                 "ticks of 1e-4 s ('%.4f' of such differences is exact)"]
-ASSUMPTIONS = ["OPEN FINDINGS (KNOWN_FINDINGS.json): a message split across chunks leaves the parser one message late; RFB 3.7/3.8 with "
-               "VNC authentication is mis-parsed. The oracle therefore judges sessions chunked at message boundaries with security "
-               "None (or 3.3 with --password-required); other chunkings are compared with the model, which mirrors the defects",
+ASSUMPTIONS = ["keysyms are representable: in KEYMAP's reverse map or a code point <= 0x10FFFF other than CR / a surrogate "
+               "(the rest is the open C16/C18 finding about chr())",
                "a button press is a pointer event with the button's bit set following one without it, at an unchanged position"]
 
 REV = {v: n for n, v in lp.KEYMAP.items()}
@@ -22,8 +21,14 @@ REV = {v: n for n, v in lp.KEYMAP.items()}
 def gen_session(rng):
     version = rng.choice([b"003.003", b"003.007", b"003.008", b"003.005"])
     pwreq = version in (b"003.003", b"003.005") and rng.random() < 0.4
-    hs = viewer_handshake(version, auth_response=(bytes(rng.getrandbits(8) for _ in range(16)) if pwreq else None),
-                          shared=rng.choice([0, 1]))
+    new = version in (b"003.007", b"003.008")
+    vnc = new and rng.random() < 0.5           # a 3.7/3.8 viewer selects VNC authentication
+    # --password-required is only consulted for 3.3-style handshakes; for 3.7/3.8 it may be set or not
+    if new and rng.random() < 0.3:
+        pwreq = True
+    resp = bytes(rng.choice([0, 1, 2, 4, 5, 6, 255, rng.getrandbits(8)]) for _ in range(16))
+    hs = viewer_handshake(version, security=(b"\x02" if vnc else rng.choice([b"\x01", b"\x01", b"\x10", b"\x1e"])),
+                          auth_response=(resp if (vnc or (pwreq and not new)) else None), shared=rng.choice([0, 1]))
     msgs = []        # (bytes, expected entry or None)
     pos = None
     held = 0
@@ -49,6 +54,12 @@ def gen_session(rng):
                 moved = new != pos
                 pos = new
                 msgs.append((pointer_event(0, *pos), ("pointer", pos if moved else None, [])))
+        elif r < 0.84:
+            k = rng.choice([rng.randrange(32, 127), rng.choice(list(REV)), 0x20AC])
+            down = rng.choice([0, 1, 1, 256, 65535])
+            msgs.append((proxyreal.qemu_key(down, k, rng.getrandbits(32)), ("keydown" if down else "keyup", REV.get(k, chr(k)))))
+        elif r < 0.87:
+            msgs.append((proxyreal.cut_text(bytes(rng.getrandbits(8) for _ in range(rng.choice([0, 1, 3, 40, 300])))), None))
         elif r < 0.9:
             msgs.append((fbur(rng.choice([0, 1]), 0, 0, rng.randrange(1, 2000), rng.randrange(1, 2000)), None))
         elif r < 0.95:
@@ -115,68 +126,117 @@ def run_real(pwreq, timed_chunks):
     return p, per_chunk
 
 
+def judge(version, pwreq, hs, msgs, chunks):
+    """Run the real proxy on timed chunks; -> (failure text or None, per_chunk).  The oracle: one entry per
+    input event, in order, written during the chunk that delivers the last byte of its message, pause = time
+    since the chunk that completed the previous recorded event (or since connection)."""
+    p, per_chunk = run_real(pwreq, chunks)
+    # arrival chunk of each message's last byte
+    ends = []
+    pos = sum(len(h) for h in hs)
+    for data, _ in msgs:
+        pos += len(data)
+        ends.append(pos)
+    cum = 0
+    bounds = []
+    for t, d in chunks:
+        cum += len(d)
+        bounds.append((cum, t))
+    times, idx = [], []
+    k = 0
+    for e in ends:
+        while bounds[k][0] < e:
+            k += 1
+        times.append(bounds[k][1])
+        idx.append(k)
+    exp = expected_entries(msgs, times, 0)
+    try:
+        got = parse_script(p.script())
+    except ValueError as e:
+        got = f"unparseable script: {e}"
+    why = None
+    if p.error is not None:
+        why = f"the parser raised {type(p.error).__name__}: {p.error}"
+    elif got != exp:
+        k = next((j for j, (a, b) in enumerate(zip(got, exp)) if a != b), min(len(got), len(exp))) if isinstance(got, list) else 0
+        why = (f"script entry #{k}: recorded {got[k] if isinstance(got, list) and k < len(got) else got!r}, "
+               f"the viewer's event was {exp[k] if k < len(exp) else None} ({len(got) if isinstance(got, list) else '?'} entries for {len(exp)} events)")
+    else:
+        want = [0] * len(chunks)
+        for (data, e), k in zip(msgs, idx):
+            if e is not None:
+                want[k] += 1
+        have = [len(lines) for _st, lines in per_chunk]
+        if have != want:
+            k = next(j for j, (a, b) in enumerate(zip(have, want)) if a != b)
+            why = f"chunk #{k}: {have[k]} entries written while it arrived, {want[k]} messages were completed by it"
+    return why, per_chunk
+
+
+def cut(stream, cuts):
+    cuts = sorted(set(c for c in cuts if 0 < c < len(stream)))
+    return [stream[a:b] for a, b in zip([0] + cuts, cuts + [len(stream)])]
+
+
 def run(tier, seed, model):
     camp = common.Campaign()
     rng = random.Random(seed * 7919 + 17)
-    n = 500 if tier == "quick" else 15000
+    n = 400 if tier == "quick" else 12000
     reqs, meta = [], []
     for i in range(n):
         version, pwreq, hs, msgs = gen_session(rng)
-        # --- delivery at message boundaries: judged by the oracle
+        stream = b"".join(hs) + b"".join(d for d, _ in msgs)
+        deliveries = []
+        # (a) message by message
         t = 0
         chunks = []
         for h in hs:
             t += rng.choice([0, 1, 50, 12345])
             chunks.append((t, h))
-        times = []
         for data, _ in msgs:
             t += rng.choice([0, 1, 7, 100, 10000, 123456])
-            times.append(t)
             chunks.append((t, data))
-        camp.evaluations += 1
+        deliveries.append(("boundaries", chunks))
+        # (b) random cuts, (c) byte at a time, (d) whole, (e) a cut inside every message in turn
+        k = min(rng.randrange(1, 8), len(stream) - 1)
+        pieces = cut(stream, rng.sample(range(1, len(stream)), k))
+        tt, timed = 0, []
+        for pc in pieces:
+            tt += rng.choice([0, 1, 37, 5000, 99999])
+            timed.append((tt, pc))
+        deliveries.append(("random", timed))
+        if i % 4 == 0:
+            deliveries.append(("bytewise", [(3 * (j + 1), stream[j:j + 1]) for j in range(len(stream))]))
+        if i % 4 == 1:
+            deliveries.append(("whole", [(11, stream)]))
+        if i % 4 >= 2:
+            pos = sum(len(h) for h in hs)
+            cs = []
+            for data, _ in msgs:
+                if len(data) > 1:
+                    cs.append(pos + rng.randrange(1, len(data)))
+                pos += len(data)
+            deliveries.append(("split-every-message", [(101 * (j + 1), pc) for j, pc in enumerate(cut(stream, cs))]))
         camp.count("version:" + version.decode())
-        camp.count("password-required" if pwreq else "security-none")
-        p, per_chunk = run_real(pwreq, chunks)
+        camp.count("security:" + ("vnc-response" if any(len(h) == 16 for h in hs) else "none"))
         camp.nontrivial.add((version, pwreq, tuple(d for d, _ in msgs)))
-        exp = expected_entries(msgs, times, 0)
-        try:
-            got = parse_script(p.script())
-        except ValueError as e:
-            got = f"unparseable script: {e}"
-        why = None
-        if p.error is not None:
-            why = f"the parser raised {type(p.error).__name__}: {p.error}"
-        elif got != exp:
-            k = next((j for j, (a, b) in enumerate(zip(got, exp)) if a != b), min(len(got), len(exp))) if isinstance(got, list) else 0
-            why = (f"script entry #{k}: recorded {got[k] if isinstance(got, list) and k < len(got) else got!r}, "
-                   f"the viewer's event was {exp[k] if k < len(exp) else None} ({len(got) if isinstance(got, list) else '?'} entries for {len(exp)} events)")
-        else:
-            # each entry written by the time its message has arrived
-            nh = len(hs)
-            for j, ((data, e), (st, lines)) in enumerate(zip(msgs, per_chunk[nh:])):
-                if (e is not None) != (len(lines) == 1) or (e is None and lines):
-                    why = f"message #{j} ({data[:1].hex()}): {len(lines)} entries written while its bytes arrived"
-                    break
-        if why:
-            camp.oracle_failures.append({"kind": "oracle", "property": "C17",
-                                         "case": {"pwreq": pwreq, "chunks": [[tt, d.hex()] for tt, d in chunks]},
-                                         "what": f"RFB {version.decode()}, password_required={pwreq}: {why}"})
-            if len(camp.oracle_failures) >= 3:
-                break
-        if model is not None:
-            reqs.append(("proxy_run", [pwreq, 0, [[tt, d] for tt, d in chunks]]))
-            meta.append((per_chunk, "boundaries", i))
-            # --- arbitrary chunking of the same stream: compared with the model only
-            stream = b"".join(d for _, d in chunks)
-            cuts = sorted(rng.sample(range(1, len(stream)), min(rng.randrange(1, 6), len(stream) - 1)))
-            pieces = [stream[a:b] for a, b in zip([0] + cuts, cuts + [len(stream)])]
-            tchunks = [(100 * (j + 1), pc) for j, pc in enumerate(pieces)]
-            p2, per2 = run_real(pwreq, tchunks)
-            reqs.append(("proxy_run", [pwreq, 0, [[tt, d] for tt, d in tchunks]]))
-            meta.append((per2, "arbitrary", i))
+        for kind, chunks in deliveries:
+            camp.evaluations += 1
+            camp.count("delivery:" + kind)
+            why, per_chunk = judge(version, pwreq, hs, msgs, chunks)
+            if why:
+                camp.oracle_failures.append({"kind": "oracle", "property": "C17",
+                                             "case": {"pwreq": pwreq, "chunks": [[tt, d.hex()] for tt, d in chunks]},
+                                             "what": f"RFB {version.decode()}, password_required={pwreq}, delivery {kind} "
+                                                     f"({len(chunks)} chunks): {why}"})
+            if model is not None:
+                reqs.append(("proxy_run", [pwreq, 0, [[tt, d] for tt, d in chunks]]))
+                meta.append((per_chunk, kind, i))
+        if len(camp.oracle_failures) >= 3:
+            break
         if len(camp.samples) < 4 and i % 101 == 0:
             camp.samples.append({"version": version.decode(), "password_required": pwreq, "messages": len(msgs),
-                                 "script_head": p.script()[:120]})
+                                 "stream_bytes": len(stream)})
     if model is not None:
         for ans, (per_chunk, kind, i) in zip(model.call_many(reqs), meta):
             m = model_events(ans)
@@ -185,30 +245,14 @@ def run(tier, seed, model):
                 camp.model_mismatches.append({"property": "C17", "case": {"session": i, "chunking": kind},
                                               "what": f"session {i} ({kind}) chunk #{k}: model {m[k] if k < len(m) else None} vs "
                                                       f"proxy {per_chunk[k] if k < len(per_chunk) else None}"})
-    findings(camp)
-    camp.rule = ("viewer sessions (RFB 3.3/3.5/3.7/3.8 banners, security None or 3.3+VNC response with --password-required, 1..24 "
-                 "messages: key events over ASCII/named/Unicode/special keysyms, pointer moves/presses/releases, update requests, "
-                 "SetEncodings, SetPixelFormat) fed to the real VNCLoggingServerProxy under a virtual clock, message by message: "
-                 "script entries, order, pauses and the time each entry is written are judged; the same stream under a random "
-                 "chunking is compared with the Coq model; non-trivial = distinct session")
+    camp.rule = ("viewer sessions (RFB 3.3/3.5/3.7/3.8 banners; security None, VNC authentication selected by a 3.7/3.8 viewer, or "
+                 "3.3 + VNC response with --password-required; 1..24 messages: key events over ASCII/named/Unicode/special keysyms, "
+                 "QEMU extended key events, pointer moves/presses/releases, update requests, SetEncodings, SetPixelFormat, "
+                 "ClientCutText) fed to the real VNCLoggingServerProxy under a virtual clock, delivered message by message, under "
+                 "random cuts, byte at a time, whole, and with a cut inside every message: script entries, order, pauses and the "
+                 "chunk during which each entry is written are judged, and every run is compared with the Coq model; "
+                 "non-trivial = distinct session")
     return camp
-
-
-def findings(camp):
-    # (1) a message split across two chunks: every later event is recorded one message late
-    hs = viewer_handshake(b"003.008")
-    k1, k2, k3 = key_event(1, 97), key_event(0, 97), key_event(1, 98)
-    p, _ = run_real(False, [(0, h) for h in hs] + [(10, k1[:3]), (20, k1[3:]), (30, k2), (40, k3)])
-    got = parse_script(p.script()) if p.error is None else None
-    if got is None or len(got) != 3:
-        camp.known_hits.append("a KeyEvent split across two chunks: later events are recorded one message late and the last one "
-                               f"never ({0 if got is None else len(got)} of 3 entries) (finding c17-split-message)")
-    # (2) RFB 3.8 with VNC authentication: the 16-byte response is parsed as ClientInit + messages
-    p2, _ = run_real(False, [(0, b"RFB 003.008\n"), (1, b"\x02"), (2, bytes(range(100, 116))), (3, b"\x01"), (4, key_event(1, 97))])
-    got2 = parse_script(p2.script()) if p2.error is None else None
-    if got2 != [["pause", "0.0004", "keydown", "a"]]:
-        camp.known_hits.append("RFB 3.8 with VNC authentication: the viewer's 16-byte response is parsed as messages "
-                               f"({type(p2.error).__name__ if p2.error else got2}) (finding c17-vncauth-37-38)")
 
 
 def replay(payload):
